@@ -99,6 +99,12 @@ func (r *Regexp) LookupMulti(_ context.Context, key string) ([]string, error) {
 		return []string{}, nil
 	}
 
+	// Without a replacement the table acts as a match check and returns
+	// the key itself.
+	if len(r.replacements) == 0 {
+		return []string{key}, nil
+	}
+
 	result := []string{}
 	for _, replacement := range r.replacements {
 		if !r.expandPlaceholders {
